@@ -69,3 +69,9 @@ reg("C19", level="model_checking", overlay="plain",
     level_text="Every update history inside the bounds runs on the real adjustments.Pll with a scripted clock recording Step/Adjust; after every update the actuation is compared with a four-phase reference machine written from the statement (when a Step is due and with what value, slew limit, duration, finiteness, restart on epoch change).",
     budget={"quick": 120, "thorough": 900}, workers={"quick": 16, "thorough": 16},
     assumptions=["offset MinInt64 is outside the alphabet (the double negation saturates; documented in DESIGN.md)", "clock readings are non-decreasing"])
+
+reg("C17", level="model_checking", overlay="plain",
+    technique="exhaustive enumeration of sample histories against a reference model (lucky packet) and a differential fresh-filter oracle (Ntimed)",
+    level_text="All histories inside the bounds are run on the real filters; the lucky-packet output is compared with a 10-line reference model after every sample, the Ntimed filter with the statement's raw-output rules (using the bounds the filter itself reports) and with a fresh filter after every reset / epoch change.",
+    budget={"quick": 120, "thorough": 900}, workers={"quick": 16, "thorough": 16},
+    assumptions=["round-trip delays within a window are pairwise distinct (as the statement requires)", "Ntimed learned bounds are observed through the filter's own debug log record", "float tolerance 2 ns"])
